@@ -4,9 +4,12 @@
   directory, for the model's verdict.
     cnew <tree|bare|vdir>
     cput <name> <tok> | cdel <name>            complete operation
-    cplan put <name> <tok> | cplan del <name>  -> step names, comma separated
+    cstate <name:tok,…>                        the store as it is: these files, one commit
+    cobj tree <name:tok,…>                     a tree object that exists in the object store
+    cskip <0|1>                                1: `add_objects` found its pack present already (no pack written)
+    cplan put <name> <tok> | cplan del <name>  -> names of the steps that touch the disk, comma separated
     ccrash put <name> <tok> <j> | ccrash del <name> <j>
-                                               -> old | new | same | other   nd=<0|1>
+                                               -> old | new | same | other   nd=<0|1>   (j counts those steps)
 -/
 import Xandikos.Store.Crash
 import Xandikos.Driver.Codec
@@ -17,6 +20,12 @@ open Xandikos.Store.Crash Xandikos.Codec
 structure CState where
   kind : Kind := .tree
   disk : Disk := {}
+  skipPack : Bool := false
+
+def isPack : Step → Bool
+  | .addPack _ => true
+  | .addPackIdx => true
+  | _ => false
 
 def parseKind : String → Kind
   | "bare" => .bare
@@ -24,23 +33,25 @@ def parseKind : String → Kind
   | _ => .tree
 
 /-- the steps of a plan that touch the disk, in order -/
-def effectiveNames : Disk → List Step → List String
+def eff (skipPack : Bool) (d : Disk) (s : Step) : Bool := effective d s && !(skipPack && isPack s)
+
+def effectiveNames (sp : Bool) : Disk → List Step → List String
   | _, [] => []
-  | d, s :: rest => (if effective d s then [s.name] else []) ++ effectiveNames (apply d s) rest
+  | d, s :: rest => (if eff sp d s then [s.name] else []) ++ effectiveNames sp (apply d s) rest
 
 /-- length of the plan prefix that holds `j` effective steps -/
-def prefixLen : Disk → List Step → Nat → Nat
+def prefixLen (sp : Bool) : Disk → List Step → Nat → Nat
   | _, [], _ => 0
   | d, s :: rest, j =>
-    if effective d s then
+    if eff sp d s then
       (match j with
        | 0 => 0
-       | j + 1 => 1 + prefixLen (apply d s) rest j)
-    else 1 + prefixLen (apply d s) rest j
+       | j + 1 => 1 + prefixLen sp (apply d s) rest j)
+    else 1 + prefixLen sp (apply d s) rest j
 
-def verdict (k : Kind) (d : Disk) (op : Op) (j : Nat) : String :=
+def verdict (sp : Bool) (k : Kind) (d : Disk) (op : Op) (j : Nat) : String :=
   let steps := plan k d op
-  let j := prefixLen d steps j
+  let j := prefixLen sp d steps j
   let old := view k d
   let new := view k (run d steps)
   let got := view k (crash d steps j)
@@ -54,13 +65,25 @@ def verdict (k : Kind) (d : Disk) (op : Op) (j : Nat) : String :=
 def step (s : CState) (line : String) : CState × String :=
   match words line with
   | ["cnew", k] => ({ kind := parseKind k, disk := {} }, "ok")
+  | ["cstate", fs] =>
+    let files := decPairs fs
+    let d : Disk := match s.kind with
+      | .vdir => { wt := files.map fun (n, t) => (Key.file n, ⟨t, true⟩) }
+      | .tree => { objs := mkCommit files none :: Obj.tree files :: files.map (fun (_, t) => Obj.blob t),
+                   head := some (mkCommit files none), index := files,
+                   wt := files.map fun (n, t) => (Key.file n, ⟨t, true⟩) }
+      | .bare => { objs := mkCommit files none :: Obj.tree files :: files.map (fun (_, t) => Obj.blob t),
+                   head := if files.isEmpty then none else some (mkCommit files none) }
+    ({ s with disk := d }, "ok")
+  | ["cobj", "tree", es] => ({ s with disk := { s.disk with objs := Obj.tree (decPairs es) :: s.disk.objs } }, "ok")
+  | ["cskip", f] => ({ s with skipPack := f == "1" }, "ok")
   | ["cput", n, t] => ({ s with disk := run s.disk (plan s.kind s.disk (.put (fieldS n) (fieldS t))) }, "ok")
   | ["cdel", n] => ({ s with disk := run s.disk (plan s.kind s.disk (.delete (fieldS n))) }, "ok")
   | ["cplan", "put", n, t] =>
-    (s, ",".intercalate (effectiveNames s.disk (plan s.kind s.disk (.put (fieldS n) (fieldS t)))))
-  | ["cplan", "del", n] => (s, ",".intercalate (effectiveNames s.disk (plan s.kind s.disk (.delete (fieldS n)))))
-  | ["ccrash", "put", n, t, j] => (s, verdict s.kind s.disk (.put (fieldS n) (fieldS t)) j.toNat!)
-  | ["ccrash", "del", n, j] => (s, verdict s.kind s.disk (.delete (fieldS n)) j.toNat!)
+    (s, ",".intercalate (effectiveNames s.skipPack s.disk (plan s.kind s.disk (.put (fieldS n) (fieldS t)))))
+  | ["cplan", "del", n] => (s, ",".intercalate (effectiveNames s.skipPack s.disk (plan s.kind s.disk (.delete (fieldS n)))))
+  | ["ccrash", "put", n, t, j] => (s, verdict s.skipPack s.kind s.disk (.put (fieldS n) (fieldS t)) j.toNat!)
+  | ["ccrash", "del", n, j] => (s, verdict s.skipPack s.kind s.disk (.delete (fieldS n)) j.toNat!)
   | _ => (s, "bad-op")
 
 end Xandikos.CrashDriver
